@@ -3,7 +3,7 @@
 (* Reference semantics of conditional compilation (C07).  Layer 1.          *)
 (*                                                                          *)
 (* A source is a sequence of items:                                         *)
-(*   text | define (of macro Z) | undef (of Z) | error | include            *)
+(*   text | define (of macro Z) | undef (of Z) | error | include | cmtdir   *)
 (*   if c | ifdef n | ifndef n | elif c | else | endif                      *)
 (* Conditional groups form a tree.  An item is ACTIVE iff in every          *)
 (* enclosing group the branch containing it is the selected one; the        *)
@@ -35,6 +35,8 @@ Run(s, i, fr, z, kept) ==
   CASE it.k \in {"text", "include"} -> Run(s, i + 1, fr, z, IF active THEN kept \cup {i} ELSE kept)
     [] it.k = "define" -> Run(s, i + 1, fr, IF active THEN TRUE ELSE z, kept)
     [] it.k = "undef"  -> Run(s, i + 1, fr, IF active THEN FALSE ELSE z, kept)
+    \* a block comment whose lines look like directives (#else, #define Z, #endif): a comment is a comment wherever it stands
+    [] it.k = "cmtdir" -> Run(s, i + 1, fr, z, kept)
     [] it.k = "error"  -> (IF active THEN [kept |-> kept, z |-> z, err |-> i] ELSE Run(s, i + 1, fr, z, kept))
     [] it.k = "if"     -> open(active /\ Truth(it.c))
     [] it.k = "ifdef"  -> open(active /\ Defined(it.c, z))
